@@ -1,6 +1,6 @@
 ---------------------------- MODULE MC_Doc ----------------------------
 (* Document-level properties as invariants of the pipeline model over all small grids.      *)
-EXTENDS Bridge, Json
+EXTENDS BridgeP, Json
 CONSTANTS W, H, Alphabet
 MCInit == InitWith([1..H -> [1..W -> Alphabet]])
 ModelC12 == Done => C12_With(rows, [ModelDoc(out) EXCEPT !.wf = 1] @@ [w |-> RefCanvasW(rows), h |-> RefCanvasH(rows)])
